@@ -21,7 +21,7 @@ ANCHORS = ["State.__eq__", "Lanelet.__eq__", "Obstacle.__eq__", "Obstacle.__hash
            "TrafficSign.__eq__", "Intersection.__eq__"]
 REQUIRED = ["law.reflexive", "law.deepcopy", "law.symmetric", "law.twin", "law.perturbation", "law.hash-total",
             "law.hash-consistent", "defaults-instance", "law.kwargs-order", "law.cross-class-state", "law.optional-subsets", "law.derived-attribute-twin",
-            "coordinates-of-different-magnitude", "law.after-update_initial_state", "law.assembly-twin", "law.moved-after-compared", "law.other-representation", "law.other-representation.array-dtype", "law.inspected-twin", "perturbation.emptied-collection", "law.none-vs-empty-twin", "perturbation.member-other-than-the-last-changed", "law.default-instances-share-nothing",
+            "coordinates-of-different-magnitude", "law.after-update_initial_state", "law.assembly-twin", "law.moved-after-compared", "law.other-representation", "law.other-representation.array-dtype", "law.inspected-twin", "perturbation.emptied-collection", "law.none-vs-empty-twin", "law.two-spellings-of-an-instant", "perturbation.member-other-than-the-last-changed", "law.default-instances-share-nothing",
             "class.Polygon.large", "class.Lanelet.large"]
 ASSUMPTIONS = ["perturbations are clearly different valid values (never a duplicate; a reordering only for the member lists of shape groups and light cycles, whose order carries meaning)",
                "real perturbations are >= 1e-6, i.e. far above the documented 1e-10 resolution"]
@@ -936,3 +936,34 @@ def run(ctx):
                     V("eq-and-ne-inconsistent", "x==y %s, x!=y %s" % (a, na), p)
                 elif a:
                     V("perturbation-not-detected", "variant #%d of parameter %s compares equal" % (j, p), p)
+
+    # ------------------------------------------------------------------ two spellings of the same instant
+    # Time documents minutes 0..60 and hours 0..24: (h, 60) and (h + 1, 0) name the same instant. Whether the class treats
+    # them as equal is its business; if it does, they hash alike -- also inside the objects that hold a Time
+    from commonroad.common.util import Time
+    from commonroad.scenario.scenario import Environment as _Env, Location as _Loc, TimeOfDay, Underground, Weather
+    for idx, rng in ctx.cases("time-spellings", ctx.pick(24, 400)):
+        h = idx % 24
+        date = [(None, None, None), (1, 5, 2024), (28, 2, 2031)][idx % 3]
+        a_, b_ = Time(h, 60, *date), Time(h + 1, 0, *date)
+        holders = [("Time", a_, b_)]
+        try:
+            ea, eb = _Env(a_, TimeOfDay.NIGHT, Weather.SUNNY, Underground.DIRTY), _Env(b_, TimeOfDay.NIGHT, Weather.SUNNY,
+                                                                                  Underground.DIRTY)
+            holders += [("Environment", ea, eb), ("Location", _Loc(7, 1.5, 2.5, None, ea), _Loc(7, 1.5, 2.5, None, eb))]
+        except Exception:  # noqa
+            pass
+        ctx.feature("law.two-spellings-of-an-instant")
+        for nm_, x_, y_ in holders:
+            ctx.evaluation()
+            ctx.fingerprint(["time-spelling", nm_, h, date])
+            r = eq_ops(x_, y_)
+            if r[0] == "exc":
+                ctx.violation("C12/%s/eq-raises-%s/minute-60" % (nm_, type(r[1]).__name__), repr(r[1]), {"hours": h})
+            elif r[1][0] != r[1][1]:
+                ctx.violation("C12/%s/not-symmetric/minute-60" % nm_, "x==y %s, y==x %s" % (r[1][0], r[1][1]), {"hours": h})
+            elif r[1][0]:
+                h1, h2 = safe(hash, x_), safe(hash, y_)
+                if h1[0] == "ok" and h2[0] == "ok" and h1[1] != h2[1]:
+                    ctx.violation("C12/%s/equal-but-hash-differs/minute-60" % nm_,
+                                  "(%d, 60) == (%d, 0) but the hashes differ" % (h, h + 1), {"hours": h, "date": date})
